@@ -115,7 +115,7 @@ func genScenario(t *rapid.T) scenario {
 		sc.Call = genList(t, 31, 64, 0)
 	}
 	sc.Verb = rapid.IntRange(0, 2).Draw(t, "verb")
-	sc.FlagsHow = rapid.SampledFrom([]int{0, 0, 1, 2, 3}).Draw(t, "flagsHow")
+	sc.FlagsHow = rapid.SampledFrom([]int{0, 0, 1, 2, 3, 4}).Draw(t, "flagsHow")
 	sc.Disturb = rapid.SampledFrom([]int{0, 0, 0, 1, 2, 3, 4, 5, 6}).Draw(t, "disturbance")
 	if rapid.IntRange(0, 3).Draw(t, "commonAttrs1") == 0 {
 		sc.Common = []vlib.ExpAttr{{Key: "cm", Val: vlib.Value{Kind: "string", V: "common"}}}
